@@ -51,10 +51,10 @@ def gen_cases(tier, seed):
 
 
 PROFILES = {
-    "mixed": {"dup_uid": 0.8, "add_data_fail": 0.6, "mk_deferred": 1.0, "clip": 1.0},
+    "mixed": {"dup_uid": 0.8, "add_data_fail": 0.6, "mk_deferred": 1.0, "clip": 1.0, "set_parts": 0.8},
     "churn": {"dup_uid": 1.0, "mk_deferred": 1.0, "clip": 1.5, "mk_object": 2.0, "remove": 4.0, "copy": 3.0, "move": 3.0, "rename": 2.0, "reopen": 2.0, "gc": 1.5, "listing": 1.5},
     "deep": {"mk_group": 5.0, "move": 4.0, "copy": 2.5, "mk_object": 2.0},
-    "clip": {"mk_object": 4.0, "add_data": 6.0, "clip": 6.0, "set_values": 1.0, "reopen": 1.5, "remove": 1.0, "mk_group": 1.5, "move": 1.0},
+    "clip": {"mk_object": 4.0, "add_data": 6.0, "clip": 6.0, "set_parts": 2.5, "set_values": 1.0, "reopen": 1.5, "remove": 1.0, "mk_group": 1.5, "move": 1.0},
     "pg": {"add_data": 6.0, "pg_add": 4.0, "pg_remove_data": 2.0, "pg_delete": 1.0, "remove": 3.0, "copy": 2.0},
 }
 
@@ -67,7 +67,9 @@ class C01Monitor(hist.Monitor):
 
         rec = eng.rec
         tainted = set()
-        for uid, attr, exc in getattr(eng, "live_errors", []):
+        if live is None:
+            rec.see("closes-without-a-look-at-the-live-session")
+        for uid, attr, exc in (getattr(eng, "live_errors", []) if live is not None else []):
             rec.fail("C01.live-getter-raises", op="snapshot", cls=live.get(uid, {}).get("cls", ""), attr=attr, detail=f"{uid}.{attr}: {type(exc).__name__}: {exc}")
         fresh = Workspace(path, mode="r")
         try:
@@ -77,8 +79,9 @@ class C01Monitor(hist.Monitor):
                 rec.fail("C01.reopen-getter-raises", op="snapshot", cls=reopened.get(uid, {}).get("cls", ""), attr=attr, detail=f"{uid}.{attr}: {type(exc).__name__}: {exc}")
         finally:
             fresh.close()
-        hist.diff_snapshots(rec, PROP, "C01.live-vs-reopen", live, reopened, "close", tainted=tainted)
-        hist.compare_model(rec, PROP, eng.model, live, "live", tainted=tainted)
+        if live is not None:
+            hist.diff_snapshots(rec, PROP, "C01.live-vs-reopen", live, reopened, "close", tainted=tainted)
+            hist.compare_model(rec, PROP, eng.model, live, "live", tainted=tainted)
         hist.compare_model(rec, PROP, eng.model, reopened, "reopened", tainted=tainted)
         # raw flat containers vs the model (independent reader)
         raw = snap.raw_snapshot(path)
@@ -89,7 +92,7 @@ class C01Monitor(hist.Monitor):
             rec.fail("C01.file-missing", op="close", cls=p.split("/")[0], detail=f"{p} is in the model but not in the flat container", counted=True)
         for p in sorted(have - want - eng.parent_removed):
             rec.fail("C01.file-extra", op="close", cls=p.split("/")[0], detail=f"{p} is in the flat container but the API history removed it or never created it (it can be resurrected by uid reuse)", counted=True)
-        if len(live) >= 3 and len(eng.log) >= 1:
+        if len(live if live is not None else reopened) >= 3 and len(eng.log) >= 1:
             rec.nontrivial = True
 
 
@@ -107,6 +110,7 @@ def run_case(case, rec):
         in_memory_start=case.get("in_memory", False),
         classes=["Grid2D", "Grid2D", "Curve", "Points", "BlockModel", "Surface", "Octree"] if case["profile"] == "clip" else None,
     )
+    eng.unobserved_closes = 0.35  # a third of the closes happen without the monitors having read anything from the session (a getter may repair what a setter left)
     eng.run()
     rec.shape = [case["gc"], case["refs"], case["profile"], [(o["op"], o.get("cls", "")) for o in eng.log]]
     rec.sample = {"schedule": [case["gc"], case["refs"]], "history": [short({k: v for k, v in o.items() if k not in ("removed",)}, 200) for o in eng.log[:12]]}
